@@ -16,7 +16,7 @@ GEN_NOTE = (COMMON_NOTE + "The generator and the generated code are MODELLED (de
    "instruction lists of every generated serialize / deserialize / __init__ and Model/Recover.v compares them with the elaboration of the same tree inside Coq, so the theorems about the "
    "elaborated lists apply to the code as emitted for all objects and bytes; trusted there: the recogniser's copy of the templates and Python's ast. For C02 C15 C16 the serialize "
    "methods are moreover parsed generically (tools/py2stmt.py) into the statement language of Model/PyStmt.v, checked in Coq to equal render_serialize (elab tree), and Properties/C02R.v proves "
-   "that running those statements is Model/Ser.v (trusted: the parser and the ~250-line interpreter of the Python subset). ")
+   "that running those statements is Model/Ser.v; likewise deserialize (Model/PyStmtR.v, Properties/C03R.v: = Model/Deser.v on every byte string) and the constructors / read-only properties (Model/RenderInit.v, Properties/C19R.v: the slots and objects the models assume, frozen instances). Trusted: the generic parser and the three small interpreters of the Python subset. ")
 
 CHECKS = {
  'C07': dict(
